@@ -133,11 +133,7 @@ func init() {
 			if nM := nCorpus + c.Pick(120000, 3000000); i >= nM {
 				// directed families: the small ones (general names, AIA, DNs, name constraints, extension shapes, CRL
 				// shapes) completely, the two big ones by a stride
-				dC, tail, j := directedCount(c), directedSmallTail(c), i-nM
-				k := dC - 1 - j
-				if j >= tail {
-					k = dC - tail - 1 - (j-tail)*c.Pick(9, 2) - int(uint64(c.Seed)%uint64(c.Pick(9, 2)))
-				}
+				k := directedPick(c, i-nM)
 				if k < 0 {
 					return
 				}
